@@ -174,7 +174,10 @@ func (s *RegistrySyncer) syncRange(
 		})
 	})
 	if err != nil {
-		log.Warn().AnErr("error adding identity registered event into db", err)
+		// The events and the sync status are written atomically. If that failed, stop here:
+		// continuing with the next range would move the sync status past events that have
+		// not been stored.
+		return errors.Wrap(err, "failed to store identity registered events and sync status")
 	}
 	log.Info().
 		Uint64("start-block", start).
